@@ -157,7 +157,10 @@ def spec_strategy(kind, tier, exact_only=False, **wl_kw):
     def build(tb):
         def with_domain(exact):
             rate = schedlab.nice_rate() if exact else st.sampled_from([1e4, 56000.0, 123456.7, 8e5, 3e6, 7e5, 2.4e10, 1.5e6])
-            wl = schedlab.sched_workload(tb["flows"], 40 if big else 24, exact=exact, **wl_kw)
+            kw = dict(wl_kw)
+            if exact and "sizes" not in kw:
+                kw["sizes"] = st.sampled_from(schedlab.SIZES_NICE + [0, 64, 128])      # zero-length packets are legal
+            wl = schedlab.sched_workload(tb["flows"], 40 if big else 24, exact=exact, **kw)
             return st.tuples(rate, wl).map(lambda t: {"kind": kind, "exact": exact, "rate": t[0], "table": tb["table"],
                                                       "f2c": tb["f2c"], "wl": t[1]})
         if exact_only:
